@@ -99,7 +99,7 @@ end AV.Props.C04
 /-! # Validity of the results, renaming, completion, complement, partial form, compositions -/
 
 namespace AV.Props.C04
-open AV AV.DFA
+open AV AV.DFA AV.C04
 
 variable {σ α : Type} [DecidableEq σ] [DecidableEq α]
 
